@@ -1640,6 +1640,12 @@ def m_vec_into_iter(engine, st, fr, callee, args, ops):
 def m_slice_iter_next(engine, st, fr, callee, args, ops):
     r = args[0]
     it = _deref_arg(engine, st, r)
+    if isinstance(it, Adt) and it.ty == "CIter":
+        items = it.fields[0].items
+        if not items:
+            return Adt("Option", "None", [])
+        engine.write_at(st, r.root, list(r.path), Adt("CIter", None, [Arr(items[1:])]))
+        return Adt("Option", "Some", [items[0]])
     if not (isinstance(it, Adt) and it.ty == "SliceIterC"):
         raise Unsupported("next on %r" % (it,))
     src, pos = it.fields
